@@ -1,7 +1,7 @@
 (* C01 — Two endpoints built on the library interoperate, even across transport loss.
    Statements only.  Nothing else may be added to this file. *)
 From MQ Require Import Base.Prelude Alloc.Alloc Alloc.AllocProofs Framing.Framing Framing.FramingProofs Conn.Types Conn.ConnRecord Conn.Step
-                       Corr.ConnTrace Conn.Scope Conn.Session Conn.IdsQuota Conn.Own Conn.OwnFrame Conn.OwnStep Conn.Run Conn.PairQos Conn.PairQos0 Conn.PairQos5 Conn.PairSeq Conn.PairSeq5 Conn.PairConc Conn.PairBi Conn.PairConc5 Conn.PairBi5 Conn.PairHandshake5 Conn.PairManual Conn.PairManual5 Conn.PairManualSeq Conn.PairManualSeq5 Conn.SessInv Conn.PairLoss Conn.PairLossAcc Conn.PairLossS.
+                       Corr.ConnTrace Conn.Scope Conn.Session Conn.IdsQuota Conn.Own Conn.OwnFrame Conn.OwnStep Conn.Run Conn.PairQos Conn.PairQos0 Conn.PairQos5 Conn.PairSeq Conn.PairSeq5 Conn.PairConc Conn.PairBi Conn.PairConc5 Conn.PairBi5 Conn.PairHandshake5 Conn.PairHandshake311 Conn.PairManual Conn.PairManual5 Conn.PairManualSeq Conn.PairManualSeq5 Conn.SessInv Conn.PairLoss Conn.PairLossAcc Conn.PairLossS.
 
 (* what the pair property rests on, each proved for ALL states of one endpoint:
    (i) delivery in any fragmentation is the same byte stream (C09) *)
@@ -266,6 +266,40 @@ Theorem C01_fresh_v5_endpoints_interoperate : forall gA gB cn ca l,
     c_publish_recv (ea s2) = [] /\ c_publish_recv (eb s2) = [].
 Proof. exact fresh_v5_endpoints_interoperate. Qed.
 Print Assumptions C01_fresh_v5_endpoints_interoperate.
+
+(* ... and the v3.1.1 handshake (Conn/PairHandshake311.v; Clean Session, session not present, any keep-alive) *)
+Theorem C01_pair_v311_handshake_establishes_invariant : forall gA gB A0 B0 cn ca,
+  OWN gA A0 -> OWN gB B0 -> c_version A0 = V311 -> c_version B0 = V311 -> c_status A0 = Disconnected -> c_status B0 = Disconnected ->
+  c_auto_pub A0 = true -> c_auto_pub B0 = true -> role_client_ok gA = true -> role_server_ok gB = true ->
+  k_type cn = T_CONNECT -> k_ver cn = V311 -> k_flag cn = true ->
+  k_type ca = T_CONNACK -> k_ver ca = V311 -> k_rc ca = 0 -> k_flag ca = false ->
+  exists A1 e1 B1 e2 B2 e3 A2 e4,
+    step gA A0 (OSend cn) = Ok (A1, e1, []) /\ sends e1 = [cn] /\ errors e1 = [] /\
+    deliver gB B0 cn = Ok (B1, e2) /\ notifies e2 = [cn] /\ errors e2 = [] /\ sends e2 = [] /\
+    step gB B1 (OSend ca) = Ok (B2, e3, []) /\ sends e3 = [ca] /\ errors e3 = [] /\
+    deliver gA A1 ca = Ok (A2, e4) /\ notifies e4 = [ca] /\ errors e4 = [] /\ sends e4 = [] /\
+    inv2 gA gB (mkBi A2 B2 [] [] [] [] [] []).
+Proof. exact handshake311_establishes_pair_invariant. Qed.
+Print Assumptions C01_pair_v311_handshake_establishes_invariant.
+
+Theorem C01_fresh_v311_endpoints_interoperate : forall gA gB cn ca l,
+  1 <= g_idmax gA -> 1 <= g_idmax gB -> role_client_ok gA = true -> role_server_ok gB = true ->
+  k_type cn = T_CONNECT -> k_ver cn = V311 -> k_flag cn = true ->
+  k_type ca = T_CONNACK -> k_ver ca = V311 -> k_rc ca = 0 -> k_flag ca = false ->
+  Forall good_act2 l ->
+  let A0 := set_auto_pub (conn_new gA V311) true in
+  let B0 := set_auto_pub (conn_new gB V311) true in
+  exists A1 e1 B1 e2 B2 e3 A2 e4 s1 s2,
+    step gA A0 (OSend cn) = Ok (A1, e1, []) /\ sends e1 = [cn] /\
+    deliver gB B0 cn = Ok (B1, e2) /\ notifies e2 = [cn] /\
+    step gB B1 (OSend ca) = Ok (B2, e3, []) /\ sends e3 = [ca] /\
+    deliver gA A1 ca = Ok (A2, e4) /\ notifies e4 = [ca] /\
+    errors e1 = [] /\ errors e2 = [] /\ errors e3 = [] /\ errors e4 = [] /\
+    run_sched2 gA gB (mkBi A2 B2 [] [] [] [] [] []) l = Some s1 /\
+    run_sched2 gA gB s1 (drain2 (measure2 s1)) = Some s2 /\
+    qab s2 = [] /\ qba s2 = [] /\ delB s2 = pubA s1 /\ delA s2 = pubB s1.
+Proof. exact fresh_v311_endpoints_interoperate. Qed.
+Print Assumptions C01_fresh_v311_endpoints_interoperate.
 
 (* MANUAL RESPONSES (Conn/PairManual.v; auto_pub_response off, v3.1.1): the library requests nothing by itself; the
    applications send PUBACK / PUBREC / PUBREL / PUBCOMP through the ordinary send call.  From every admissible pair of
